@@ -562,6 +562,221 @@ func copyFlags(repo string) flags {
 	return fl
 }
 
+// ---- live-object edit inventory ----------------------------------------------------------
+// StateDB getters hand out pointers into live state (the withdraw queue, validator records,
+// the statistics).  A caller that writes through such a pointer changes the state without any
+// StateDB call; the change reaches the tries only because IntermediateRoot writes the queue,
+// the statistics and every dirty validator from the live objects.  For every function of
+// staking/ the identifiers bound to a getter result (directly, by range, by indexing, through
+// pass-through accessors) are followed and every write through them is listed.
+
+var liveGetters = map[string]bool{"GetWithdrawQueue": true, "GetValidatorByMainAddr": true, "GetValidatorsForUpdate": true,
+	"GetValidators": true, "GetValidatorsStat": true, "GetStakingRecord": true, "GetDelegationsFrom": true}
+var passThrough = map[string]bool{"List": true, "GetByKind": true, "GetByRole": true, "GetByIndex": true}
+var objMutators = map[string]bool{"AddRewards": true, "SetRewardsResidue": true, "ResetRewards": true, "AddTotalRewards": true,
+	"UpdateLastActive": true, "UpdateDelegationFrom": true, "AddVal": true, "SubVal": true, "Add": true, "Delete": true,
+	"Insert": true, "RemoveRecords": true, "Remove": true}
+
+type liveEdit struct {
+	Func, Getter, Target, What string
+	Updates                    bool // the function also calls UpdateValidator
+}
+
+// origin: the getter an expression's value comes from ("" if none)
+func origin(e ast.Expr, live map[string]string) string {
+	for {
+		switch x := e.(type) {
+		case *ast.ParenExpr:
+			e = x.X
+		case *ast.StarExpr:
+			e = x.X
+		case *ast.UnaryExpr:
+			e = x.X
+		case *ast.IndexExpr:
+			e = x.X
+		case *ast.SliceExpr:
+			e = x.X
+		case *ast.SelectorExpr:
+			e = x.X
+		case *ast.Ident:
+			return live[x.Name]
+		case *ast.CallExpr:
+			sel, ok := x.Fun.(*ast.SelectorExpr)
+			if !ok {
+				return ""
+			}
+			if liveGetters[sel.Sel.Name] {
+				return sel.Sel.Name
+			}
+			if passThrough[sel.Sel.Name] {
+				e = sel.X
+				continue
+			}
+			return ""
+		default:
+			return ""
+		}
+	}
+}
+
+func liveEdits(repo string) []liveEdit {
+	var out []liveEdit
+	fset := token.NewFileSet()
+	pkgs, err := parser.ParseDir(fset, filepath.Join(repo, "staking"), func(fi os.FileInfo) bool {
+		return !strings.HasSuffix(fi.Name(), "_test.go")
+	}, 0)
+	if err != nil {
+		fmt.Fprintln(os.Stderr, "copytable: cannot parse staking", err)
+		os.Exit(2)
+	}
+	for _, pkg := range pkgs {
+		var names []string
+		for n := range pkg.Files {
+			names = append(names, n)
+		}
+		sort.Strings(names)
+		for _, fn := range names {
+			for _, d := range pkg.Files[fn].Decls {
+				fd, ok := d.(*ast.FuncDecl)
+				if !ok || fd.Body == nil {
+					continue
+				}
+				live := map[string]string{}
+				// two passes so that bindings made later in the text (loops) are seen
+				for pass := 0; pass < 2; pass++ {
+					ast.Inspect(fd.Body, func(n ast.Node) bool {
+						switch x := n.(type) {
+						case *ast.AssignStmt:
+							if len(x.Rhs) >= 1 {
+								for i, l := range x.Lhs {
+									id, ok := l.(*ast.Ident)
+									if !ok {
+										continue
+									}
+									r := x.Rhs[0]
+									if i < len(x.Rhs) {
+										r = x.Rhs[i]
+									}
+									if i > 0 && len(x.Rhs) == 1 {
+										continue // x, err := f(): only the first result is the object
+									}
+									if g := origin(r, live); g != "" {
+										live[id.Name] = g
+									}
+								}
+							}
+						case *ast.RangeStmt:
+							if g := origin(x.X, live); g != "" {
+								if id, ok := x.Value.(*ast.Ident); ok {
+									live[id.Name] = g
+								}
+							}
+						}
+						return true
+					})
+				}
+				if len(live) == 0 {
+					continue
+				}
+				fname := fd.Name.Name
+				updates := false
+				ast.Inspect(fd.Body, func(n ast.Node) bool {
+					if c, ok := n.(*ast.CallExpr); ok {
+						if sel, ok := c.Fun.(*ast.SelectorExpr); ok && sel.Sel.Name == "UpdateValidator" {
+							updates = true
+						}
+					}
+					return true
+				})
+				first := len(out)
+				targetOf := func(e ast.Expr) string {
+					// the field path below the live identifier
+					var parts []string
+					for {
+						switch x := e.(type) {
+						case *ast.SelectorExpr:
+							parts = append([]string{x.Sel.Name}, parts...)
+							e = x.X
+							continue
+						case *ast.IndexExpr:
+							e = x.X
+							continue
+						case *ast.StarExpr:
+							e = x.X
+							continue
+						case *ast.ParenExpr:
+							e = x.X
+							continue
+						}
+						break
+					}
+					return strings.Join(parts, ".")
+				}
+				ast.Inspect(fd.Body, func(n ast.Node) bool {
+					switch x := n.(type) {
+					case *ast.AssignStmt:
+						if x.Tok == token.DEFINE {
+							return true
+						}
+						for _, l := range x.Lhs {
+							if _, isId := l.(*ast.Ident); isId {
+								continue // rebinding the variable, not a write through it
+							}
+							if g := origin(l, live); g != "" {
+								out = append(out, liveEdit{Func: fname, Getter: g, Target: targetOf(l), What: "assignment"})
+							}
+						}
+					case *ast.IncDecStmt:
+						if _, isId := x.X.(*ast.Ident); !isId {
+							if g := origin(x.X, live); g != "" {
+								out = append(out, liveEdit{Func: fname, Getter: g, Target: targetOf(x.X), What: "increment"})
+							}
+						}
+					case *ast.CallExpr:
+						sel, ok := x.Fun.(*ast.SelectorExpr)
+						if !ok {
+							return true
+						}
+						if g := origin(sel.X, live); g != "" {
+							if _, recvIsCall := sel.X.(*ast.CallExpr); recvIsCall && !objMutators[sel.Sel.Name] {
+								return true
+							}
+							t := targetOf(sel.X)
+							switch {
+							case bigMutators[sel.Sel.Name] && t != "":
+								out = append(out, liveEdit{Func: fname, Getter: g, Target: t, What: "big.Int " + sel.Sel.Name})
+							case objMutators[sel.Sel.Name]:
+								what := sel.Sel.Name
+								if t != "" {
+									what = t + "." + what
+								}
+								out = append(out, liveEdit{Func: fname, Getter: g, Target: what, What: "method"})
+							}
+						}
+					}
+					return true
+				})
+				for i := first; i < len(out); i++ {
+					out[i].Updates = updates
+				}
+			}
+		}
+	}
+	sort.Slice(out, func(i, j int) bool {
+		a, b := out[i], out[j]
+		return a.Getter+a.Target+a.Func+a.What < b.Getter+b.Target+b.Func+b.What
+	})
+	// one row per (getter, target, function)
+	var ded []liveEdit
+	for i, e := range out {
+		if i > 0 && e.Getter == out[i-1].Getter && e.Target == out[i-1].Target && e.Func == out[i-1].Func {
+			continue
+		}
+		ded = append(ded, e)
+	}
+	return ded
+}
+
 func copyTable(repo, out string) {
 	rows := inventory(repo)
 	fl := copyFlags(repo)
@@ -614,6 +829,14 @@ func copyTable(repo, out string) {
 			sb.WriteString(";\n")
 		}
 		sb.WriteString(fmt.Sprintf("  (\"%s\", \"%s\", \"%s\")", st.Field, st.Func, st.What))
+	}
+	sb.WriteString("].\n")
+	sb.WriteString("(* writes of the staking module through objects a StateDB getter handed out: getter, field or method, function, does the function also call UpdateValidator *)\nDefinition live_edits : list (string * string * string * bool) := [\n")
+	for i, e := range liveEdits(repo) {
+		if i > 0 {
+			sb.WriteString(";\n")
+		}
+		sb.WriteString(fmt.Sprintf("  (\"%s\", \"%s\", \"%s\", %s)", e.Getter, e.Target, e.Func, vf.Bool(e.Updates)))
 	}
 	sb.WriteString("].\n")
 	sb.WriteString(fmt.Sprintf("Definition deepcopy_keeps_delegations : bool := %s.\nDefinition copy_marks_dirty_always : bool := %s.\n", vf.Bool(fl.KeepDlgs), vf.Bool(fl.DirtyAlways)))
